@@ -355,6 +355,8 @@ def gen_seqi_program(seed, tier="quick"):
     for op in prog["ops"]:
         if op["op"] in ("raw", "div", "restart") and rng.random() < 0.7:
             continue
+        if op["op"] == "scribble":
+            continue
         if op["op"] == "raw":
             continue
         op = dict(op)
